@@ -14,6 +14,13 @@ import (
 	"bufio"
 	"bytes"
 	"context"
+	"crypto/ecdsa"
+	"crypto/elliptic"
+	crand "crypto/rand"
+	"crypto/x509"
+	"crypto/x509/pkix"
+	"encoding/pem"
+	"math/big"
 	"encoding/binary"
 	"encoding/json"
 	"errors"
@@ -35,6 +42,7 @@ import (
 	"time"
 
 	"github.com/alicebob/miniredis"
+	yaml "gopkg.in/yaml.v2"
 
 	"github.com/chihaya/chihaya/bittorrent"
 	"github.com/chihaya/chihaya/frontend"
@@ -42,7 +50,7 @@ import (
 	cbencode "github.com/chihaya/chihaya/frontend/http/bencode"
 	"github.com/chihaya/chihaya/frontend/udp"
 	"github.com/chihaya/chihaya/middleware"
-	cjwt "github.com/chihaya/chihaya/middleware/jwt"
+	cjwt "github.com/chihaya/chihaya/middleware/jwt" // also registers the "jwt" middleware driver
 	"github.com/chihaya/chihaya/pkg/stop"
 	"github.com/chihaya/chihaya/storage"
 	"github.com/chihaya/chihaya/storage/memory"
@@ -517,7 +525,40 @@ func (h *c16StopHook) Stop() stop.Result {
 // reporting errors, hooks that are no Stoppers (skipped), and the real JWT hook, whose refresh goroutine is idle
 // (state 1) or inside a fetch the JWK endpoint never answers (state 2).  Stop must deliver the members' errors
 // whatever the hook's own goroutine is doing.
+// drivers for building the same hooks the way the tracker does: from the configuration file (middleware.HooksFromHookConfigs)
+type c16PlainDriver struct{}
+
+func (c16PlainDriver) NewHook([]byte) (middleware.Hook, error) { return newC16Gate(true), nil }
+
+type c16StopDriver struct{}
+
+func (c16StopDriver) NewHook(opt []byte) (middleware.Hook, error) {
+	var cfg struct {
+		Codes []int64 `yaml:"codes"`
+	}
+	if err := yaml.Unmarshal(opt, &cfg); err != nil {
+		return nil, err
+	}
+	var cs []*int64
+	for i := range cfg.Codes {
+		cs = append(cs, &cfg.Codes[i])
+	}
+	return &c16StopHook{c16Gate: *newC16Gate(true), codes: cs}, nil
+}
+
+var c16DriversOnce sync.Once
+
 func c16Mw(o *Out, kind string, state int, layout []int, codes [][]*int64) {
+	c16MwX(o, kind, state, layout, codes, false)
+}
+
+// c16MwX: with viaConfig the hooks are not constructed directly but built from hook configurations, as cmd/chihaya does
+// (names + options through the middleware driver registry); whatever that path wraps around a hook, Stop must reach it.
+func c16MwX(o *Out, kind string, state int, layout []int, codes [][]*int64, viaConfig bool) {
+	c16DriversOnce.Do(func() {
+		middleware.RegisterDriver("verif-plain", c16PlainDriver{})
+		middleware.RegisterDriver("verif-stop", c16StopDriver{})
+	})
 	// layout: per hook 0 = plain hook (no Stopper), 1 = stoppable test hook (next entry of codes), 2 = the JWT hook;
 	// the first half are pre-hooks, the rest post-hooks
 	var jwks = `{"keys":[]}`
@@ -538,11 +579,13 @@ func c16Mw(o *Out, kind string, state int, layout []int, codes [][]*int64) {
 	defer close(gate)
 	var hooks []middleware.Hook
 	var members []string
+	var hcfgs []middleware.HookConfig
 	ci := 0
 	for _, l := range layout {
 		switch l {
 		case 0:
 			hooks = append(hooks, newC16Gate(true))
+			hcfgs = append(hcfgs, middleware.HookConfig{Name: "verif-plain"})
 		case 1:
 			var cs []*int64
 			if ci < len(codes) {
@@ -551,18 +594,37 @@ func c16Mw(o *Out, kind string, state int, layout []int, codes [][]*int64) {
 			ci++
 			hooks = append(hooks, &c16StopHook{c16Gate: *newC16Gate(true), codes: cs})
 			members = append(members, c16RawCoq(cs))
+			var ints []interface{}
+			for _, c := range cs {
+				if c != nil {
+					ints = append(ints, *c)
+				}
+			}
+			hcfgs = append(hcfgs, middleware.HookConfig{Name: "verif-stop", Options: map[string]interface{}{"codes": ints}})
 		case 2:
 			iv := 24 * time.Hour
 			if state == 2 {
 				iv = 2 * time.Millisecond
 			}
-			h, err := cjwt.NewHook(cjwt.Config{Issuer: "i", Audience: "a", JWKSetURL: ts.URL, JWKUpdateInterval: iv})
-			if err != nil {
-				panic("c16: jwt.NewHook: " + err.Error())
+			if viaConfig {
+				hooks = append(hooks, nil) // built below
+			} else {
+				h, err := cjwt.NewHook(cjwt.Config{Issuer: "i", Audience: "a", JWKSetURL: ts.URL, JWKUpdateInterval: iv})
+				if err != nil {
+					panic("c16: jwt.NewHook: " + err.Error())
+				}
+				hooks = append(hooks, h)
 			}
-			hooks = append(hooks, h)
 			members = append(members, "[]")
+			hcfgs = append(hcfgs, middleware.HookConfig{Name: "jwt", Options: map[string]interface{}{"issuer": "i", "audience": "a", "jwk_set_url": ts.URL, "jwk_set_update_interval": iv.String()}})
 		}
+	}
+	if viaConfig {
+		built, err := middleware.HooksFromHookConfigs(hcfgs)
+		if err != nil || len(built) != len(hcfgs) {
+			panic(fmt.Sprint("c16: HooksFromHookConfigs: ", err))
+		}
+		hooks = built
 	}
 	if state == 2 && !c16Sig(arrived, c16Long) {
 		panic("c16: the JWT hook never refreshed")
@@ -590,7 +652,116 @@ func c16Mw(o *Out, kind string, state int, layout []int, codes [][]*int64) {
 	<-ps.Stop()
 	o.add(Case{Kind: kind,
 		Coq: fmt.Sprintf("CMwStop %d %s %s %s", state, cList(members), cBool(done), c16RawCoq(obs)),
-		In:  map[string]interface{}{"t": "mwstop", "state": state, "layout": layout, "codes": codes},
+		In:  map[string]interface{}{"t": "mwstop", "state": state, "layout": layout, "codes": codes, "via_config": viaConfig},
+		Obs: map[string]interface{}{"done": done, "res": obs}})
+}
+
+// ---------------------------------------------------------------- (h) HTTP Frontend.Stop reports every server's error
+
+var c16CertOnce sync.Once
+var c16CertPath, c16KeyPath string
+
+// a self-signed certificate for the HTTPS server (generated once per run, in a temporary directory)
+func c16Cert() (string, string) {
+	c16CertOnce.Do(func() {
+		key, err := ecdsa.GenerateKey(elliptic.P256(), crand.Reader)
+		if err != nil {
+			panic(err)
+		}
+		tmpl := &x509.Certificate{SerialNumber: big.NewInt(16), Subject: pkix.Name{CommonName: "verif-c16"}, NotBefore: time.Now().Add(-time.Hour),
+			NotAfter: time.Now().Add(24 * time.Hour), IPAddresses: []net.IP{{127, 0, 0, 1}}, KeyUsage: x509.KeyUsageDigitalSignature, ExtKeyUsage: []x509.ExtKeyUsage{x509.ExtKeyUsageServerAuth}}
+		der, err := x509.CreateCertificate(crand.Reader, tmpl, tmpl, &key.PublicKey, key)
+		if err != nil {
+			panic(err)
+		}
+		kb, err := x509.MarshalECPrivateKey(key)
+		if err != nil {
+			panic(err)
+		}
+		dir, _ := os.MkdirTemp("", "c16cert")
+		c16CertPath, c16KeyPath = filepath.Join(dir, "cert.pem"), filepath.Join(dir, "key.pem")
+		_ = os.WriteFile(c16CertPath, pem.EncodeToMemory(&pem.Block{Type: "CERTIFICATE", Bytes: der}), 0o600)
+		_ = os.WriteFile(c16KeyPath, pem.EncodeToMemory(&pem.Block{Type: "EC PRIVATE KEY", Bytes: kb}), 0o600)
+	})
+	return c16CertPath, c16KeyPath
+}
+
+// c16FeStop: the HTTP frontend with its plain and/or its TLS server (servers: 0 both, 1 http only, 2 https only); the Close of
+// the listeners named by fail (bit 1: http, bit 2: https) reports an error - the one fault Shutdown(context.Background())
+// can report.  Stop must terminate and report exactly the failing servers' errors, in server order.
+func c16FeStop(o *Out, kind string, servers, fail int) {
+	store := c16Mem()
+	logic := newC16Logic(store, nil, nil)
+	cfg := httpfe.Config{ReadTimeout: time.Minute, WriteTimeout: time.Minute, AnnounceRoutes: []string{"/announce"}, ScrapeRoutes: []string{"/scrape"}}
+	var addrH, addrS string
+	if servers != 2 {
+		addrH = fmt.Sprintf("127.0.0.1:%d", c16FreePort(false))
+		cfg.Addr = addrH
+	}
+	if servers != 1 {
+		addrS = fmt.Sprintf("127.0.0.1:%d", c16FreePort(false))
+		cfg.HTTPSAddr = addrS
+		cfg.TLSCertPath, cfg.TLSKeyPath = c16Cert()
+	}
+	before := httpfe.VerifListenCalls
+	httpfe.VerifListenerCloseErr = func(addr string) error {
+		if addr == addrH && fail&1 != 0 {
+			return errors.New("e1")
+		}
+		if addr == addrS && fail&2 != 0 {
+			return errors.New("e2")
+		}
+		return nil
+	}
+	defer func() { httpfe.VerifListenerCloseErr = nil }()
+	f, err := httpfe.NewFrontend(logic, cfg)
+	if err != nil {
+		panic("c16: NewFrontend: " + err.Error())
+	}
+	if httpfe.VerifListenCalls == before {
+		// the source no longer creates its listeners where the rewrite expects: nothing was injected, nothing to judge
+		<-f.Stop()
+		<-store.Stop()
+		o.notes["fe_stop_injection"] = "skipped: frontend/http/frontend.go does not call net.Listen( any more"
+		return
+	}
+	if servers != 2 {
+		c16RawGet(addrH, "/scrape?info_hash="+url.QueryEscape(string(bytes.Repeat([]byte{'x'}, 20))), 2*time.Second) // the server is serving
+	}
+	res := &c16Res{ch: f.Stop()}
+	done := res.wait(c16Long / 4)
+	var obs []*int64
+	for _, e := range res.errs {
+		if e == nil {
+			obs = append(obs, nil)
+			continue
+		}
+		v := int64(-1)
+		if n, perr := strconv.ParseInt(strings.TrimPrefix(e.Error(), "e"), 10, 64); perr == nil {
+			v = n
+		}
+		obs = append(obs, &v)
+	}
+	<-store.Stop()
+	var members []string
+	one, two := int64(1), int64(2)
+	if servers != 2 {
+		if fail&1 != 0 {
+			members = append(members, c16RawCoq([]*int64{&one}))
+		} else {
+			members = append(members, "[]")
+		}
+	}
+	if servers != 1 {
+		if fail&2 != 0 {
+			members = append(members, c16RawCoq([]*int64{&two}))
+		} else {
+			members = append(members, "[]")
+		}
+	}
+	o.add(Case{Kind: kind,
+		Coq: fmt.Sprintf("CMwStop %d %s %s %s", 10+servers, cList(members), cBool(done), c16RawCoq(obs)),
+		In:  map[string]interface{}{"t": "festop", "servers": servers, "fail": fail},
 		Obs: map[string]interface{}{"done": done, "res": obs}})
 }
 
@@ -810,7 +981,7 @@ func c16BuildMain(dir string) (string, error) {
 			root = filepath.Dir(root)
 		}
 		bin := filepath.Join(dir, "chihaya-verif")
-		cmd := exec.Command("go", "build", "-modfile", filepath.Join(root, "go.mod"), "-tags", "verif,shim_main",
+		cmd := exec.Command("go", "build", "-modfile", filepath.Join(root, "go.mod"), "-tags", "verif,shim_main,shim_httplisten",
 			"-overlay", filepath.Join(root, "overlay.json"), "-o", bin, "github.com/chihaya/chihaya/cmd/chihaya")
 		cmd.Dir = repo
 		out, err := cmd.CombinedOutput()
@@ -1026,6 +1197,8 @@ func c16Replay(o *Out, in map[string]interface{}) error {
 		c16Leak(o, int(jInt(in["fe"])), int(jInt(in["nreq"])))
 	case "afterstop":
 		c16AfterStop(o, int(jInt(in["fe"])), int(jInt(in["store"])))
+	case "festop":
+		c16FeStop(o, "replay", int(jInt(in["servers"])), int(jInt(in["fail"])))
 	case "mwstop":
 		var layout []int
 		var codes [][]*int64
@@ -1035,7 +1208,7 @@ func c16Replay(o *Out, in map[string]interface{}) error {
 		if err := reJSON(in["codes"], &codes); err != nil {
 			return err
 		}
-		c16Mw(o, "replay", int(jInt(in["state"])), layout, codes)
+		c16MwX(o, "replay", int(jInt(in["state"])), layout, codes, jBool(in["via_config"]))
 	case "reload":
 		var ops []c16ROp
 		if err := reJSON(in["ops"], &ops); err != nil {
@@ -1133,6 +1306,10 @@ func c16Stream(o *Out, rng *rand.Rand, n int) {
 	c16Mw(o, "mw-stop", 1, []int{1, 2, 0, 1}, [][]*int64{{iv(4)}, {iv(5)}})
 	c16Mw(o, "mw-stop", 2, []int{2, 0}, nil)
 	c16Mw(o, "mw-stop", 2, []int{0, 1, 1, 2}, [][]*int64{{}, {iv(6), iv(7)}})
+	// ... the same with the hooks built from hook configurations (names + options), as cmd/chihaya builds them
+	c16MwX(o, "mw-stop-config", 0, []int{1, 0, 1, 1}, [][]*int64{{iv(1)}, {}, {iv(2), iv(3)}}, true)
+	c16MwX(o, "mw-stop-config", 1, []int{1, 2, 0, 1}, [][]*int64{{iv(4)}, {iv(5)}}, true)
+	c16MwX(o, "mw-stop-config", 2, []int{2, 1}, [][]*int64{{iv(8)}}, true)
 	for k := 0; k < 2*reps; k++ {
 		var layout []int
 		var codes [][]*int64
@@ -1158,6 +1335,16 @@ func c16Stream(o *Out, rng *rand.Rand, n int) {
 			}
 		}
 		c16Mw(o, "mw-stop", st, layout, codes)
+	}
+
+	// (h) the HTTP frontend's Stop with failing listeners: every subset of its servers failing
+	for servers := 0; servers < 3; servers++ {
+		for fail := 0; fail < 4; fail++ {
+			if servers == 1 && fail&2 != 0 || servers == 2 && fail&1 != 0 {
+				continue
+			}
+			c16FeStop(o, "fe-stop-errors", servers, fail)
+		}
 	}
 
 	// (a) gated hooks
